@@ -311,6 +311,16 @@ func (m *bmodel) apply(o *bop) (e expect) {
 		for i := range raws {
 			raws[i] = v.raw(i)
 		}
+		if o.mut.kind == muDetach && o.sub > 0 && v.n >= 2 && (o.kind == boSort || o.kind == boToSorted) {
+			// the comparator lets the host detach the buffer when it is first called (any sort of >= 2 elements calls it).
+			// The values were read into a list before sorting; writing the sorted list back into a detached buffer is a
+			// no-op (sort), the copy made by toSorted is unaffected.
+			m.applyMut(o)
+			if o.kind == boSort {
+				e.outcomes = sameObj(v)
+				return
+			}
+		}
 		if o.kind == boSort || o.kind == boToSorted {
 			sortRaw(v.et, raws, o.sub == 2)
 		} else {
@@ -563,6 +573,10 @@ func (m *bmodel) apply(o *bop) (e expect) {
 				} else if e.cb != nil {
 					e.cb = append(e.cb, cbEvent(o.site(slCb), x))
 				}
+				if o.mut.kind != muNone && i == o.mut.at && !m.applyMut(o) {
+					e.outcomes = typeErr
+					return
+				}
 				if o.sub == 2 {
 					x = negate(x)
 				}
@@ -692,119 +706,4 @@ func negate(x jv) jv {
 		return jBig(new(big.Int).Neg(x.b))
 	}
 	return jNum(math.NaN())
-}
-
-func (m *bmodel) applyIter(o *bop, v *mview, e *expect) {
-	if !v.live() {
-		e.outcomes = typeErr
-		return
-	}
-	site := o.site(slCb)
-	pred := func(i int) bool { return (i+o.cbB)%o.cbM == 0 }
-	e.cb = []string{}
-	visit := func(i int) jv {
-		x := v.get(i)
-		e.cb = append(e.cb, cbEvent(site, x))
-		return x
-	}
-	n := v.n
-	switch o.sub {
-	case itMap:
-		dst, ok := m.speciesTA(o, v.et, n)
-		if !ok {
-			e.outcomes = typeErr
-			return
-		}
-		for i := 0; i < n; i++ {
-			x := visit(i)
-			switch o.cbM {
-			case 1:
-				x = o.val.v
-			case 2:
-				x = negate(x)
-			}
-			if !dst.set(i, x) {
-				e.outcomes = typeErr
-				return
-			}
-		}
-		newObj(e, dst)
-	case itFilter:
-		var kept []uint64
-		for i := 0; i < n; i++ {
-			visit(i)
-			if pred(i) {
-				kept = append(kept, v.raw(i))
-			}
-		}
-		dst, ok := m.speciesTA(o, v.et, len(kept))
-		if !ok {
-			e.outcomes = typeErr
-			return
-		}
-		for i, r := range kept {
-			dst.putRaw(i, r, etFloat(v.et) && rawToNumeric(v.et, r).isNaN())
-		}
-		newObj(e, dst)
-	case itForEach:
-		for i := 0; i < n; i++ {
-			visit(i)
-		}
-		e.outcomes = okVal(jUndef)
-	case itReduce, itReduceRight:
-		acc, has := o.val.v, o.hasVal
-		step, k, end := 1, 0, n
-		if o.sub == itReduceRight {
-			step, k, end = -1, n-1, -1
-		}
-		if !has {
-			if n == 0 {
-				e.outcomes = typeErr
-				return
-			}
-			acc = v.get(k)
-			k += step
-		}
-		for ; k != end; k += step {
-			acc = visit(k)
-		}
-		e.outcomes = okVal(acc)
-	case itFind, itFindIndex, itSome, itEvery:
-		for i := 0; i < n; i++ {
-			x := visit(i)
-			p := pred(i)
-			switch {
-			case o.sub == itFind && p:
-				e.outcomes = okVal(x)
-				return
-			case o.sub == itFindIndex && p:
-				e.outcomes = okVal(jNum(float64(i)))
-				return
-			case o.sub == itSome && p:
-				e.outcomes = okVal(jBool(true))
-				return
-			case o.sub == itEvery && !p:
-				e.outcomes = okVal(jBool(false))
-				return
-			}
-		}
-		e.outcomes = okVal(map[int]jv{itFind: jUndef, itFindIndex: jNum(-1), itSome: jBool(false), itEvery: jBool(true)}[o.sub])
-	case itFindLast, itFindLastIndex:
-		for i := n - 1; i >= 0; i-- {
-			x := visit(i)
-			if pred(i) {
-				if o.sub == itFindLast {
-					e.outcomes = okVal(x)
-				} else {
-					e.outcomes = okVal(jNum(float64(i)))
-				}
-				return
-			}
-		}
-		if o.sub == itFindLast {
-			e.outcomes = okVal(jUndef)
-		} else {
-			e.outcomes = okVal(jNum(-1))
-		}
-	}
 }
